@@ -168,7 +168,7 @@ package json
 //@   ensures fresh(result) && result.number == nil && result.bytes == b
 
 //@ func (*GuessData).Number()
-//@   props C01 C02
+//@   props C01 C02 C10
 //@   requires gdWF(g)
 //@   nopanic
 //@   modifies g.number
@@ -177,7 +177,7 @@ package json
 //@   ensures result1 == nil && old(g.number) != nil ==> result0 == old(g.number)
 
 //@ func (*GuessData).IsInteger()
-//@   props C01 C02
+//@   props C01 C02 C10
 //@   requires gdWF(g)
 //@   nopanic
 //@   modifies g.number
@@ -187,7 +187,7 @@ package json
 //@   loop 0 decreases len(g.bytes) - rangeindex
 
 //@ func (*GuessData).IsFloat()
-//@   props C01 C02
+//@   props C01 C02 C10
 //@   requires gdWF(g)
 //@   nopanic
 //@   modifies g.number
@@ -197,7 +197,7 @@ package json
 //@   loop 0 decreases len(g.bytes) - rangeindex
 
 //@ func (GuessData).LiteralJsonType()
-//@   props C01 C02
+//@   props C01 C02 C10
 //@   requires g.number == nil
 //@   maypanic
 //@   ensures panics <==> litKind(g.bytes) == 0
